@@ -461,8 +461,25 @@ class CatalogWriter(AbstractContextManager, HandlesDataChunk):
     def __enter__(self) -> Self:
         return self
 
-    def __exit__(self, *args, **kwargs) -> None:
-        self.finalize()
+    def __exit__(self, exc_type, *args, **kwargs) -> None:
+        if exc_type is not None:
+            self.abort()  # do not turn partial data into a valid catalog
+            return
+
+        try:
+            self.finalize()
+        except Exception:
+            self.abort()
+            raise
+
+    def abort(self) -> None:
+        """Close all patch writers and remove the incomplete cache directory."""
+        for writer in self.writers.values():
+            try:
+                writer.close()
+            except Exception:
+                pass
+        rmtree(self.cache_directory, ignore_errors=True)
 
     @property
     def num_patches(self) -> int:
